@@ -134,6 +134,12 @@ func c08Ops(tier string, fracs []string) func(n *engine.Node) []world.Op {
 		if _, ok := s.FindPos(0, 1, "bbb"); ok {
 			ops = append(ops, world.Op{K: world.KUndelegateAll, D: 0, V: 1, Denom: "bbb", Class: ClsUser})
 		}
+		if _, ok := s.FindPos(1, 1, "bbb"); ok {
+			ops = append(ops, world.Op{K: world.KUndelegateAll, D: 1, V: 1, Denom: "bbb", Class: ClsUser})
+			if _, ok0 := s.FindPos(0, 0, "bbb"); ok0 {
+				ops = append(ops, world.Op{K: world.KUndelegateAll, D: 0, V: 0, Denom: "bbb", Class: ClsUser})
+			}
+		}
 		if a, ok := s.Assets["bbb"]; ok && a.TotalTokens.IsZero() {
 			ops = append(ops, world.Op{K: world.KGovDelete, Denom: "bbb", Class: ClsGov})
 		}
@@ -157,6 +163,12 @@ func init() {
 		opDel(0, 0, "aaa", "1000"), opDel(0, 1, "aaa", "1000"), opDel(1, 0, "aaa", "1000"), opDel(1, 1, "aaa", "1000"),
 		opDel(0, 0, "bbb", "1000"),
 	}
+	// second seed: bbb staked with amounts and a prior 50% slash that make its share price non-representable (5/6), so that
+	// full exits leave sub-unit validator-share dust behind; the asset can then be emptied and deleted by governance
+	dustSeed := []world.Op{
+		opDel(0, 0, "aaa", "1000"), opDel(1, 1, "aaa", "1000"),
+		opDel(0, 0, "bbb", "4000000000"), opDel(1, 1, "bbb", "2000000000"), opSlash(1, "0.5"),
+	}
 	register(&Property{
 		ID:    "C08",
 		Title: "Slash callback is total",
@@ -164,7 +176,7 @@ func init() {
 			mk := func(name string, cfg world.Config, fracs []string, budgets []int, depth int, stores []string) *engine.Scenario {
 				return &engine.Scenario{
 					Property: "C08", Name: name, Cfg: cfg, Stores: stores,
-					Seeds: [][]world.Op{seed}, ClassNames: classNames, Budgets: budgets, MaxDepth: depth,
+					Seeds: [][]world.Op{seed, dustSeed}, ClassNames: classNames, Budgets: budgets, MaxDepth: depth,
 					NewRef: func(w *world.World, root *engine.Node) engine.Ref { return newPendRef() },
 					Ops:    c08Ops(tier, fracs), Step: c08Step, SeedStep: true,
 					Expand: func(x *engine.Exec) bool {
